@@ -266,7 +266,15 @@ pub enum BlockEdit {
     GtWrongTarget,
     /// no transactions at all
     Empty,
+    /// payout lies by the producer (not in BLOCK_EDITS, whose indices are recorded in replays):
+    /// the fee transaction gets an extra output / loses its last output / pays its first output to
+    /// another key / pays one nolan more; merkle root recomputed, block re-signed
+    FeeTxExtraOutput,
+    FeeTxDropOutput,
+    FeeTxRedirect,
+    FeeTxInflate,
 }
+pub const PAYOUT_EDITS: [BlockEdit; 4] = [BlockEdit::FeeTxExtraOutput, BlockEdit::FeeTxDropOutput, BlockEdit::FeeTxRedirect, BlockEdit::FeeTxInflate];
 pub const BLOCK_EDITS: [BlockEdit; 10] = [
     BlockEdit::BurnFee,
     BlockEdit::Treasury,
@@ -330,6 +338,37 @@ pub fn apply_block_edit(b: &mut Block, e: BlockEdit, creator: &KeyPair, parent_d
         }
         BlockEdit::Empty => {
             b.transactions.clear();
+        }
+        BlockEdit::FeeTxExtraOutput | BlockEdit::FeeTxDropOutput | BlockEdit::FeeTxRedirect | BlockEdit::FeeTxInflate => {
+            let idx = match b.transactions.iter().position(|t| t.transaction_type == TransactionType::Fee) {
+                Some(i) => i,
+                None => return false,
+            };
+            let t = &mut b.transactions[idx];
+            match e {
+                BlockEdit::FeeTxExtraOutput => {
+                    let mut o = Slip::default();
+                    o.public_key = key(7).0;
+                    o.amount = 1_000_000;
+                    o.slip_type = SlipType::RouterOutput;
+                    t.add_to_slip(o);
+                }
+                BlockEdit::FeeTxDropOutput => {
+                    if t.to.pop().is_none() {
+                        return false;
+                    }
+                }
+                BlockEdit::FeeTxRedirect => {
+                    match t.to.iter_mut().find(|s| s.amount > 0) {
+                        Some(s) if s.public_key != key(7).0 => s.public_key = key(7).0,
+                        _ => return false,
+                    }
+                }
+                _ => match t.to.iter_mut().find(|s| s.amount > 0) {
+                    Some(s) => s.amount += 1,
+                    None => return false,
+                },
+            }
         }
     }
     re_sign(b, creator, true);
